@@ -30,6 +30,8 @@ func runC09(c *Ctx) {
 	c.Rule("R9.5", 20, "the combinator grammar equals the documented pattern grammar rule by rule")
 	c.Rule("R9.6", 4, "a range end is clipped to an interval that reaches beyond the table of supported characters, so that the group mapper still finds it unsupported")
 	checkClampKeepsOutsider(c, "R9.6")
+	c.Rule("R9.7", 4, "a direct alternative of an ordered choice fails only by shape: a value that is not acceptable is an error, not a failed parse that lets the next alternative re-read the text")
+	checkAlternativesFailByShape(c, "R9.7")
 	checkRegexGrammarDocs(c, "R9.5")
 	checkClassPresence(c, "R9.2")
 	checkRuneHelperResults(c, "R9.2")
@@ -926,6 +928,53 @@ func checkEscapeList(c *Ctx, pp *packages.Package) {
 		}
 		return true
 	})
+	// what follows the backslash is that list and nothing else: ExpectRune('\\').CONCAT(ExpectRuneIn(list...)) with no further alternative
+	ast.Inspect(newFn.Body, func(n ast.Node) bool {
+		call, ok := n.(*ast.CallExpr)
+		if !ok || len(call.Args) < 1 {
+			return true
+		}
+		sel, ok := call.Fun.(*ast.SelectorExpr)
+		if !ok || sel.Sel.Name != "CONCAT" {
+			return true
+		}
+		head, ok := ast.Unparen(sel.X).(*ast.CallExpr)
+		if !ok || len(head.Args) != 1 {
+			return true
+		}
+		if fo, ok := objOf(info, head.Fun).(*types.Func); !ok || fo.Name() != "ExpectRune" {
+			return true
+		}
+		if v, ok := constInt(info, head.Args[0]); !ok || v != 92 {
+			return true
+		}
+		exact := false
+		if len(call.Args) == 1 {
+			if arg, ok := ast.Unparen(call.Args[0]).(*ast.CallExpr); ok && len(arg.Args) == 1 && arg.Ellipsis.IsValid() {
+				if fo, ok := objOf(info, arg.Fun).(*types.Func); ok && fo.Name() == "ExpectRuneIn" {
+					if id, ok := ast.Unparen(arg.Args[0]).(*ast.Ident); ok && info.Uses[id] == listObj {
+						exact = true
+					}
+				}
+			}
+		}
+		if !exact {
+			// is the list there at all, among other things?
+			mentions := false
+			ast.Inspect(call, func(m ast.Node) bool {
+				if id, ok := m.(*ast.Ident); ok && info.Uses[id] == listObj {
+					mentions = true
+				}
+				return true
+			})
+			if mentions {
+				c.Fail("R9.3", "a backslash is followed by a character of that list and by nothing else", call.Pos(),
+					"after the backslash the combinator accepts more than the documented list ("+types.ExprString(call.Args[0])+"): escapes the documented grammar does not have are accepted",
+					`a\tb (an escape that is not in the documented list)`)
+			}
+		}
+		return true
+	})
 	c.Check("R9.3", "unescaped characters exclude exactly that list", newFn.Pos(), excl, "unescaped_char is not built with ExcludeRunes(<the list>...)")
 	c.Check("R9.3", "escaped characters are exactly that list after a backslash", newFn.Pos(), incl, "escaped_char is not built with ExpectRuneIn(<the list>...)")
 }
@@ -1158,4 +1207,186 @@ func affineText(a, k int64) string {
 		return fmt.Sprintf("len(table)+%d", a)
 	}
 	return fmt.Sprintf("%d+%d*len(table)", a, k)
+}
+
+// checkAlternativesFailByShape (R9.7 = R2.7): in an ordered choice `a.ALT(b, c)` the next alternative is tried when one fails. A leaf
+// mapper (`x.Map(toX)`, toX a function of the pattern-parser package) that fails because of the *value* it was handed (a comparison, a
+// validity test) rather than because the parsed parts do not have the expected shape makes the choice fall through, and a later
+// alternative that begins with the same literal re-reads the same text as something else: `\xD800` becomes `\xD8` followed by "00".
+// A value that is not acceptable has to be recorded as an error (the mappers' error list), not turned into a failed parse.
+func checkAlternativesFailByShape(c *Ctx, rule string) {
+	pp := c.Pkg("internal/regex/parser")
+	if pp == nil {
+		return
+	}
+	info := pp.TypesInfo
+	type def struct {
+		mapper *types.Func
+		lit    string
+		pos    token.Pos
+	}
+	defs := map[string]*def{}
+	firstLit := func(e ast.Expr) string {
+		// the innermost receiver of the method chain: comb.ExpectString(lit) / comb.ExpectRune(c)
+		for {
+			call, ok := ast.Unparen(e).(*ast.CallExpr)
+			if !ok {
+				return ""
+			}
+			if sel, ok := call.Fun.(*ast.SelectorExpr); ok {
+				if fo, ok := info.Uses[sel.Sel].(*types.Func); ok && fo.Pkg() != nil && strings.HasSuffix(fo.Pkg().Path(), "combinator") {
+					if _, isPkg := info.Uses[identOf(sel.X)].(*types.PkgName); isPkg {
+						if len(call.Args) == 1 {
+							if v, ok := constStr(info, call.Args[0]); ok {
+								return v
+							}
+							if v, ok := constInt(info, call.Args[0]); ok {
+								return string(rune(v))
+							}
+						}
+						return ""
+					}
+				}
+				e = sel.X
+				continue
+			}
+			return ""
+		}
+	}
+	AllFuncDecls(pp, func(fd *ast.FuncDecl) {
+		if fd.Body == nil {
+			return
+		}
+		ast.Inspect(fd.Body, func(n ast.Node) bool {
+			as, ok := n.(*ast.AssignStmt)
+			if !ok || len(as.Lhs) != 1 || len(as.Rhs) != 1 {
+				return true
+			}
+			lsel, ok := as.Lhs[0].(*ast.SelectorExpr)
+			if !ok {
+				return true
+			}
+			call, ok := ast.Unparen(as.Rhs[0]).(*ast.CallExpr)
+			if !ok || len(call.Args) != 1 {
+				return true
+			}
+			msel, ok := call.Fun.(*ast.SelectorExpr)
+			if !ok || msel.Sel.Name != "Map" {
+				return true
+			}
+			fo, ok := objOf(info, call.Args[0]).(*types.Func)
+			if !ok || fo.Pkg() != pp.Types {
+				return true
+			}
+			defs[lsel.Sel.Name] = &def{mapper: fo, lit: firstLit(msel.X), pos: as.Pos()}
+			return true
+		})
+	})
+	// mappers that can fail on a value
+	valueFail := map[*types.Func]token.Pos{}
+	for _, d := range defs {
+		fd := declOfFunc(pp, d.mapper)
+		if fd == nil || fd.Body == nil {
+			continue
+		}
+		var stack []ast.Node
+		ast.Inspect(fd.Body, func(n ast.Node) bool {
+			if n == nil {
+				stack = stack[:len(stack)-1]
+				return true
+			}
+			defer func() { stack = append(stack, n) }()
+			ret, ok := n.(*ast.ReturnStmt)
+			if !ok || len(ret.Results) != 2 {
+				return true
+			}
+			if tv, ok := info.Types[ret.Results[1]]; !ok || tv.Value == nil || tv.Value.String() != "false" {
+				return true
+			}
+			for _, anc := range stack {
+				ifs, ok := anc.(*ast.IfStmt)
+				if !ok {
+					continue
+				}
+				byValue := false
+				ast.Inspect(ifs.Cond, func(m ast.Node) bool {
+					switch x := m.(type) {
+					case *ast.BinaryExpr:
+						switch x.Op {
+						case token.EQL, token.NEQ, token.LSS, token.LEQ, token.GTR, token.GEQ:
+							if !isNilExpr(info, x.X) && !isNilExpr(info, x.Y) {
+								byValue = true
+							}
+						}
+					case *ast.CallExpr:
+						if tv, has := info.Types[x.Fun]; !(has && tv.IsType()) {
+							byValue = true
+						}
+					}
+					return true
+				})
+				if byValue {
+					valueFail[d.mapper] = ret.Pos()
+				}
+			}
+			return true
+		})
+	}
+	n := 0
+	AllFuncDecls(pp, func(fd *ast.FuncDecl) {
+		if fd.Body == nil {
+			return
+		}
+		ast.Inspect(fd.Body, func(nd ast.Node) bool {
+			call, ok := nd.(*ast.CallExpr)
+			if !ok {
+				return true
+			}
+			sel, ok := call.Fun.(*ast.SelectorExpr)
+			if !ok || sel.Sel.Name != "ALT" {
+				return true
+			}
+			ops := append([]ast.Expr{sel.X}, call.Args...)
+			for i, op := range ops {
+				osel, ok := ast.Unparen(op).(*ast.SelectorExpr)
+				if !ok {
+					continue
+				}
+				d := defs[osel.Sel.Name]
+				if d == nil {
+					continue
+				}
+				n++
+				at, fails := valueFail[d.mapper]
+				key := fmt.Sprintf("alternative %s (mapper %s) of an ordered choice fails only when the parsed parts do not have its shape", osel.Sel.Name, d.mapper.Name())
+				if !fails {
+					c.Pass(rule, key, op.Pos(), "")
+					continue
+				}
+				later := ""
+				for _, op2 := range ops[i+1:] {
+					if s2, ok := ast.Unparen(op2).(*ast.SelectorExpr); ok {
+						if d2 := defs[s2.Sel.Name]; d2 != nil && d.lit != "" && d2.lit == d.lit {
+							later = s2.Sel.Name
+						}
+					}
+				}
+				if later != "" {
+					c.Fail(rule, key, at, fmt.Sprintf("%s returns false under a test on the value; the choice then tries %s, which begins with the same literal %q and reads the same text as something else", d.mapper.Name(), later, d.lit),
+						`a\xD800b: read as a, \xD8, "0", "0", b`)
+				} else {
+					c.Undecided(rule, key, at, d.mapper.Name()+" returns false under a test on the value; whether a later alternative can read the same text is not decided")
+				}
+			}
+			return true
+		})
+	})
+	if n == 0 {
+		c.Undecided(rule, "alternatives of ordered choices fail only by shape", token.NoPos, "no ordered choice over mapped leaf parsers was found")
+	}
+}
+
+func identOf(e ast.Expr) *ast.Ident {
+	id, _ := ast.Unparen(e).(*ast.Ident)
+	return id
 }
